@@ -173,6 +173,9 @@ def gen_desc(rng):
                     if rng.random() < 0.3:
                         # the prefetch stage itself drops failing examples
                         sts[0]['catch'] = rng.choice([True, 'value', ['filter', 'key'], 'index'])
+                elif 0.3 <= r < 0.34:
+                    # a user-written stage inside the profiled pipeline
+                    sts = [{'op': 'userstage', 'plain': rng.random() < 0.6}]
                 elif r < 0.3:
                     st = {'op': rng.choice(['reshuffle', 'local_shuffle', 'shuffle']),
                           'seed': rng.randrange(1 << 16)}
